@@ -1975,9 +1975,9 @@ def c09(ctx):
         b, t = z3.Int(name + "_block"), z3.Int(name + "_tx")
         return Struct([b, t]), [b >= 0, b <= U64, t >= 0, t <= U32, z3.Or(b > 0, t == 0)], {name + "_block": b, name + "_tx": t}
 
-    def make_body(kind, nout, nun, ne, mint, etched, pointer):
+    def make_body(kind, nout, nun, ne, mint, etched, pointer, pins=None):
         """kind 0 none / 1 cenotaph / 2 runestone; nun input runes; ne edicts; mint: None/'closed'/'open';
-        etched: bool; pointer: bool"""
+        etched: bool; pointer: bool; pins: {variable: value} fixed in this scenario (keeps a longer edict list affordable)"""
         def body(ob):
             exq = ob.ex()
             pre, vars_ = [], {}
@@ -2029,6 +2029,8 @@ def c09(ctx):
             # supply conservation keeps every per-rune sum inside u128 (C08's invariant): assumed
             total = sum(un_bals, z3.IntVal(0)) + (mint_amt if mint_amt is not None else 0) + (premine if etched else 0)
             pre.append(total <= U128)
+            for pv, pval in (pins or {}).items():
+                pre.append(vars_[pv] == pval)
             ob.vars = vars_
 
             def opt(v):
@@ -2144,18 +2146,23 @@ def c09(ctx):
     if ctx.tier == "quick":
         scen = [(0, 2, 1, 0, None, False, False), (1, 2, 2, 0, "open", False, False), (2, 2, 1, 1, None, False, False),
                 (2, 2, 1, 1, None, False, True), (2, 4, 1, 1, None, False, False), (2, 2, 1, 1, None, True, False), (2, 2, 2, 1, None, False, False),
-                (2, 2, 0, 0, "self", True, False)]
+                (2, 2, 0, 0, "self", True, False),
+                # an edict for 0:0 without an etching is skipped and the edicts after it still apply
+                (2, 2, 1, 2, None, False, False, {"e0_block": 0, "e0_tx": 0})]
     else:
         scen = [(0, 1, 1, 0, None, False, False), (0, 3, 2, 0, None, False, False), (1, 2, 2, 0, "open", False, False), (1, 2, 1, 0, "closed", False, False),
                 (2, 2, 0, 0, "open", False, True), (2, 2, 1, 1, None, False, False), (2, 2, 1, 1, None, False, True), (2, 3, 1, 1, "open", False, False),
                 (2, 2, 1, 1, None, True, False), (2, 2, 2, 1, None, False, False), (2, 3, 2, 1, None, False, True), (2, 2, 1, 2, None, False, False),
-                (2, 2, 1, 2, None, True, True), (2, 3, 1, 2, "open", False, False), (2, 4, 1, 1, None, False, False), (2, 4, 1, 1, None, False, True), (2, 2, 0, 0, "self", True, False), (2, 2, 1, 1, "self", True, False)]
-    for kind, nout, nun, ne, mint, etched, pointer in scen:
-        name = "c09_alloc_k%d_o%d_in%d_e%d%s%s%s" % (kind, nout, nun, ne, "_mint" + mint if mint else "", "_etch" if etched else "", "_ptr" if pointer else "")
+                (2, 2, 1, 2, None, True, True), (2, 3, 1, 2, "open", False, False), (2, 4, 1, 1, None, False, False), (2, 4, 1, 1, None, False, True), (2, 2, 0, 0, "self", True, False), (2, 2, 1, 1, "self", True, False),
+                (2, 2, 1, 2, None, False, False, {"e0_block": 0, "e0_tx": 0})]
+    for sc in scen:
+        kind, nout, nun, ne, mint, etched, pointer = sc[:7]
+        pins = sc[7] if len(sc) > 7 else None
+        name = "c09_alloc_k%d_o%d_in%d_e%d%s%s%s%s" % (kind, nout, nun, ne, "_mint" + mint if mint else "", "_etch" if etched else "", "_ptr" if pointer else "", "_zerofirst" if pins else "")
         guarded(ctx, name,
                 "one transaction: the rune balances stored per output and the burned amounts equal what the specification reference allocates (edicts in order with capping, amount 0 = all, output == n = every non-OP_RETURN output / even split with remainder first, 0:0 = etched rune, leftovers to pointer or first non-OP_RETURN output, OP_RETURN allocations and cenotaphs burn)",
-                "%s, %d outputs with arbitrary OP_RETURN flags, %d input runes, %d edicts%s%s%s; all ids/amounts/outputs symbolic; per-rune totals assumed to fit u128" % (["no runestone", "cenotaph", "runestone"][kind], nout, nun, ne, ", mint " + mint if mint else "", ", etching with premine" if etched else "", ", pointer" if pointer else ""),
-                "lift-dev", make_body(kind, nout, nun, ne, mint, etched, pointer),
+                "%s, %d outputs with arbitrary OP_RETURN flags, %d input runes, %d edicts%s%s%s%s; all ids/amounts/outputs symbolic; per-rune totals assumed to fit u128" % (["no runestone", "cenotaph", "runestone"][kind], nout, nun, ne, ", mint " + mint if mint else "", ", etching with premine" if etched else "", ", pointer" if pointer else "", ", first edict's id fixed to 0:0" if pins else ""),
+                "lift-dev", make_body(kind, nout, nun, ne, mint, etched, pointer, pins),
                 lambda v, a=(kind, nout, nun, ne, mint, etched, pointer): _rep_runes(ctx, v, *a))
 
 
@@ -2608,6 +2615,276 @@ def c36(ctx):
                 "presence pattern %s (which of self/source supplies each of the 27 fields; 'u' = same for all fields, 'm' = varying per field); supplied values and all switches are solver variables (u32 tokens stand for paths and strings; numeric fields full range); hidden lists of 2 and 1 arbitrary ids" % nm,
                 "lift-dev", body_or(pat), _rep_settings(ctx, "or", pat))
 
+
+    # ---------------------------------------------------------------- Settings::from_options
+    def options_fields():
+        """(name, type) of the fields of struct Options in the current /repo source, in declaration order"""
+        from . import kani as K
+        txt = K.strip_attrs(K.extract_struct(open(os.path.join(C.REPO, "src/options.rs")).read(), "Options"), ["arg", "command", "clap"])
+        return re.findall(r"(?m)^\s+(?:pub(?:\([a-z]+\))? )?(\w+): ([^,\n]+),", txt)
+
+    CHAIN_FLAGS = {"signet": 2, "regtest": 1, "testnet": 3, "testnet4": 4}
+
+    def body_from_options(present, chain_arg):
+        def body(ob):
+            fields_guard(ob)
+            ofs = options_fields()
+            ob.vars = {}
+            pre, vals, O = [], [], {}
+            for nm, ty in ofs:
+                ty = ty.strip()
+                if ty == "bool":
+                    v = z3.Bool("opt_" + nm); ob.vars["opt_" + nm] = v
+                    O[nm] = v; vals.append(v)
+                elif ty == "Option<Chain>":
+                    O[nm] = chain_arg
+                    vals.append(some(Enum("Chain", chain_arg, [])) if chain_arg is not None else none())
+                elif ty == "Option<OutputFormat>":
+                    O[nm] = None; vals.append(none())
+                elif ty.startswith("Option<"):
+                    if present:
+                        x = z3.Int("opt_" + nm); ob.vars["opt_" + nm] = x
+                        pre += [x >= 0, x < 2**64 if "usize" in ty else x < 2**32]
+                        O[nm] = x; vals.append(some(x))
+                    else:
+                        O[nm] = None; vals.append(none())
+                else:
+                    raise Unsupported("struct Options has a field %s of type %s the encoding does not know" % (nm, ty))
+            st = X.State(); st.pc = list(pre)
+            res = ex.run("options_extract::_::from_options", [Struct(vals)], st)
+            ob.paths += len(res)
+            for r in res:
+                if r.kind != "return":
+                    ob.reach(r.pc, "Settings::from_options panics: " + r.msg)
+                    continue
+                conds = []
+                for i, f in enumerate(S_FIELDS):
+                    g = r.value[i]
+                    if f == "chain":
+                        # the chain is one the flags ask for; absent only if none asks
+                        opts = [(z3.BoolVal(True) if ca is None else z3.BoolVal(False)) for ca in [chain_arg]]
+                        if g.variant == 0:
+                            c = z3.And(*([z3.Not(O[k]) for k in CHAIN_FLAGS if k in O] + [z3.BoolVal(chain_arg is None)]))
+                        else:
+                            v = g.fields[0].variant
+                            c = z3.Or(*([O[k] for k, cv in CHAIN_FLAGS.items() if k in O and cv == v] + [z3.BoolVal(chain_arg == v)]))
+                        conds.append((c, "from_options: chain must be one requested by --signet/--regtest/--testnet/--testnet4/--chain, and absent only when none is given"))
+                    elif f in O:
+                        if f in S_BOOLS:
+                            conds.append((X.zbool(g) == O[f], "from_options: switch %s must be the flag --%s" % (f, f.replace("_", "-"))))
+                        else:
+                            conds.append((opt_eq(g, O[f]), "from_options: %s must be the value of --%s" % (f, f.replace("_", "-"))))
+                    else:
+                        conds.append((z3.BoolVal(isinstance(g, Enum) and g.variant == 0), "from_options: %s has no flag and must stay unset" % f))
+                ok_all = z3.And(*[c for c, _ in conds])
+                s_ = z3.Solver(); s_.add(*r.pc); s_.add(z3.Not(ok_all))
+                if s_.check() == z3.unsat:
+                    ob.query(r.pc, ok_all, ob.vars, "from_options: all fields")
+                else:
+                    for c, w in conds:
+                        ob.query(r.pc, c, ob.vars, w)
+        return body
+
+    def rep_from_env(present):
+        """native replay with a canonical well-formed environment for this presence pattern (a wrong
+        variable-to-setting mapping reproduces with any values)"""
+        def go(v):
+            import json as _json, tempfile
+            from . import kani as K
+            crate = K.gen_lift()
+            env, want = {}, {}
+            for i, f in enumerate(S_FIELDS):
+                if not present[f]:
+                    want[f] = False if f in S_BOOLS else None
+                    continue
+                if f in S_BOOLS:
+                    on = S_BOOLS.index(f) % 2 == 0          # alternate non-empty / empty values
+                    env[f.upper()], want[f] = ("1" if on else ""), on
+                elif f in S_PATHS:
+                    env[f.upper()] = want[f] = "/p/" + f
+                elif f in S_STRS:
+                    env[f.upper()] = want[f] = "s_" + f
+                elif f in S_NUMS:
+                    env[f.upper()], want[f] = str(100 + i), 100 + i
+                elif f == "chain":
+                    env[f.upper()], want[f] = "signet", "Signet"
+                elif f == "hidden":
+                    ids = ["%064xi0" % 1, "%064xi0" % 2]
+                    env[f.upper()], want[f] = " ".join(ids), ids
+            with tempfile.NamedTemporaryFile("w", suffix=".json", delete=False) as f_:
+                _json.dump({"mode": "from_env", "env": env}, f_)
+                fn = f_.name
+            try:
+                envv = C.env({"VREPLAY_SETTINGS": fn, "CARGO_TARGET_DIR": os.path.join(C.BUILD, "t-liftk-replay")})
+                p = subprocess.run(["cargo", "test", "--offline", "--lib", "vreplay_settings", "--", "--nocapture"], cwd=crate, env=envv,
+                                   stdout=subprocess.PIPE, stderr=subprocess.STDOUT, universal_newlines=True, timeout=1800)
+            finally:
+                os.remove(fn)
+            m = re.search(r"^SETTINGS(-ERR)? (.*)$", p.stdout, re.M)
+            if not m:
+                if "test result: FAILED" in p.stdout:
+                    return {"env": env, "native": "panic"}
+                raise RuntimeError("replay test did not run: " + p.stdout[-500:])
+            if m.group(1):
+                return {"env": env, "native": m.group(0)[:300], "expected": "Ok"}
+            got = _json.loads(m.group(2))
+            bad = {f: {"native": got.get(f), "expected": want[f]} for f in S_FIELDS
+                   if (sorted(got.get(f) or []) != sorted(want[f]) if f == "hidden" and want[f] is not None else got.get(f) != want[f])}
+            return {"env": env, "fields": bad} if bad else None
+        return go
+
+    def rep_from_options(present, chain_arg):
+        def go(v):
+            import json as _json, tempfile
+            from . import kani as K
+            crate = K.gen_lift()
+            opts, want = {}, {}
+            for nm, ty in options_fields():
+                ty = ty.strip()
+                key = "opt_" + nm
+                if ty == "bool":
+                    opts[nm] = str(v.get(key)) == "True"
+                elif ty == "Option<Chain>":
+                    if chain_arg is not None:
+                        opts[nm] = S_CHAINS[chain_arg]
+                elif ty == "Option<OutputFormat>":
+                    pass
+                elif present:
+                    x = v.get(key, 0)
+                    opts[nm] = "/p%d" % x if "PathBuf" in ty else ("s%d" % x if "String" in ty else x)
+            with tempfile.NamedTemporaryFile("w", suffix=".json", delete=False) as f_:
+                _json.dump({"mode": "from_options", "options": opts}, f_)
+                fn = f_.name
+            try:
+                env = C.env({"VREPLAY_SETTINGS": fn, "CARGO_TARGET_DIR": os.path.join(C.BUILD, "t-liftk-replay")})
+                p = subprocess.run(["cargo", "test", "--offline", "--lib", "vreplay_settings", "--", "--nocapture"], cwd=crate, env=env,
+                                   stdout=subprocess.PIPE, stderr=subprocess.STDOUT, universal_newlines=True, timeout=1800)
+            finally:
+                os.remove(fn)
+            m = re.search(r"^SETTINGS (.*)$", p.stdout, re.M)
+            if not m:
+                if "test result: FAILED" in p.stdout:
+                    return {"options": opts, "native": "panic"}
+                raise RuntimeError("replay test did not run: " + p.stdout[-500:])
+            got = _json.loads(m.group(1))
+            bad = {}
+            for f in S_FIELDS:
+                g = got.get(f)
+                if f == "chain":
+                    asked = [S_CHAINS[cv] for k, cv in CHAIN_FLAGS.items() if opts.get(k)] + ([S_CHAINS[chain_arg]] if chain_arg is not None else [])
+                    ok = (g in asked) if asked else g is None
+                    w_ = asked
+                elif f in opts or any(nm == f for nm, _ in options_fields()):
+                    w_ = opts.get(f)
+                    ok = g == w_
+                else:
+                    w_ = None
+                    ok = g is None
+                if not ok:
+                    bad[f] = {"native": g, "expected": w_}
+            return {"options": opts, "fields": bad} if bad else None
+        return go
+
+    for present, chain_arg in ((True, None), (True, 4), (False, None), (False, 1)):
+        guarded(ctx, "c36_from_options_%s_%s" % ("some" if present else "none", "nochain" if chain_arg is None else S_CHAINS[chain_arg].lower()),
+                "Settings::from_options copies every flag into the setting of the same name (so that the flag, being first in the merge, wins), leaves settings without a flag unset, and the chain is one of those requested",
+                "all option-valued flags %s with arbitrary values, --chain %s, every switch and chain flag an arbitrary Bool; struct Options is read from src/options.rs at run time (clap attributes removed)" % ("given" if present else "absent", "absent" if chain_arg is None else S_CHAINS[chain_arg].lower()),
+                "lift-dev", body_from_options(present, chain_arg), rep_from_options(present, chain_arg))
+
+
+    # ---------------------------------------------------------------- Settings::from_env
+    def body_from_env(present):
+        def body(ob):
+            fields_guard(ob)
+            ob.vars = {}
+            envv, pairs = {}, []
+            for f in S_FIELDS:
+                if present[f]:
+                    v = X.SymStr("env_" + f)
+                    envv[f] = v
+                    pairs.append(Struct([X.SymStr("lit", chars=[ord(c) for c in f.upper()]), v]))
+            chain_ok = z3.Bool("env_chain_parses"); ob.vars["env_chain_parses"] = chain_ok
+            def ov_chain(e, st_, a):
+                return Enum("Result", 0, [Enum("Chain", 2, [])]) if e.decide(st_, chain_ok) else Enum("Result", 1, [X.Opaque("chain parse error")])
+            ex.overrides = {"<lift::Chain as FromStr>::from_str": ov_chain, "<Chain as FromStr>::from_str": ov_chain}
+            try:
+                st = X.State()
+                res = ex.run("settings_extract::_::from_env", [Container("btreemap", pairs)], st)
+            finally:
+                ex.overrides = {}
+            ob.paths += len(res)
+            for r in res:
+                if r.kind != "return":
+                    ob.reach(r.pc, "Settings::from_env panics: " + r.msg)
+                    continue
+                def attr(f, name):
+                    return r.strattrs.get(envv[f].id, {}).get(name)
+                # which values failed to parse on this path
+                bad = []
+                for f in S_FIELDS:
+                    if not present[f]:
+                        continue
+                    if f in S_NUMS:
+                        ty = {2**32: "u32", 2**16: "u16", 2**64: "usize"}[S_NUMS[f]]
+                        a_ = attr(f, "parse_" + ty)
+                        if a_ is not None:
+                            bad.append(z3.Not(a_[1]))
+                    elif f == "chain":
+                        bad.append(z3.Not(chain_ok))
+                    elif f == "hidden":
+                        a_ = attr(f, "id_list")
+                        if a_ is not None:
+                            bad.append(z3.Not(a_[2]))
+                if r.value.variant != 0:
+                    ob.query(r.pc, z3.Or(*bad) if bad else z3.BoolVal(False), ob.vars, "from_env fails only when a supplied value does not parse")
+                    continue
+                got = r.value.fields[0]
+                conds = []
+                for i, f in enumerate(S_FIELDS):
+                    g = got[i]
+                    what = "from_env: %s must be read from ORD_%s" % (f, f.upper())
+                    if not present[f]:
+                        conds.append((z3.BoolVal(g is False) if f in S_BOOLS else z3.BoolVal(isinstance(g, Enum) and g.variant == 0), what + " (unset when the variable is absent)"))
+                        continue
+                    if f in S_BOOLS:
+                        cnt = attr(f, "count")
+                        conds.append((X.zbool(g) == (X.zint(cnt) != 0) if cnt is not None else z3.BoolVal(False), what + " (on iff the value is non-empty)"))
+                        continue
+                    if not (isinstance(g, Enum) and g.variant == 1):
+                        conds.append((z3.BoolVal(False), what))
+                        continue
+                    x = g.fields[0]
+                    if f in S_PATHS:
+                        t = attr(f, "path_token")
+                        conds.append((X.zint(x) == t if t is not None and not isinstance(x, (X.SymStr, Enum, X.Opaque)) else z3.BoolVal(False), what))
+                    elif f in S_STRS:
+                        conds.append((z3.BoolVal(x is envv[f] or (isinstance(x, X.SymStr) and x.id == envv[f].id)), what))
+                    elif f in S_NUMS:
+                        ty = {2**32: "u32", 2**16: "u16", 2**64: "usize"}[S_NUMS[f]]
+                        a_ = attr(f, "parse_" + ty)
+                        conds.append((X.zint(x) == a_[0] if a_ is not None and not isinstance(x, (X.SymStr, Enum, X.Opaque)) else z3.BoolVal(False), what + " parsed as " + ty))
+                    elif f == "chain":
+                        conds.append((z3.BoolVal(isinstance(x, Enum) and x.variant == 2), what))
+                    elif f == "hidden":
+                        a_ = attr(f, "id_list")
+                        conds.append((set_eq(g, [a_[0], a_[1]]) if a_ is not None else z3.BoolVal(False), what))
+                ok_all = z3.And(*[c for c, _ in conds])
+                s_ = z3.Solver(); s_.add(*r.pc); s_.add(z3.Not(ok_all))
+                if s_.check() == z3.unsat:
+                    ob.query(r.pc, ok_all, ob.vars, "from_env: all fields")
+                else:
+                    for c, w in conds:
+                        ob.query(r.pc, c, ob.vars, w)
+        return body
+
+    env_pats = [("all", {f: True for f in S_FIELDS}), ("none", {f: False for f in S_FIELDS}),
+                ("even", {f: i % 2 == 0 for i, f in enumerate(S_FIELDS)}), ("odd", {f: i % 2 == 1 for i, f in enumerate(S_FIELDS)})]
+    for nm, pat in env_pats:
+        guarded(ctx, "c36_from_env_%s" % nm,
+                "Settings::from_env reads every setting from the ORD_ variable of its own name: paths and strings verbatim, numbers / chain / id lists parsed (failing only when a supplied value does not parse), switches on iff the value is non-empty, absent variables leave the setting unset",
+                "variables present: %s of the 27; every value an arbitrary string (abstract: length, parse results and path identity are solver variables)" % nm,
+                "lift-dev", body_from_env(pat), rep_from_env(pat))
+
     # ---------------------------------------------------------------- Settings::merge
     def body_merge(pattern):
         def body(ob):
@@ -2623,8 +2900,8 @@ def c36(ctx):
             def ov_cjoin(e, st_, a):
                 return ops.cjoin(a[0].variant, X.zint(M.deref(a[1])))
             ex.overrides = {
-                "<impl Settings>::from_options": lambda e, st_, a: _copy.deepcopy(S_["A"]),
-                "<impl Settings>::from_env": lambda e, st_, a: Enum("Result", 0, [_copy.deepcopy(S_["B"])]),
+                r"^(.*::)?(<impl (settings_extract::)?Settings>|Settings)::from_options$": lambda e, st_, a: _copy.deepcopy(S_["A"]),
+                r"^(.*::)?(<impl (settings_extract::)?Settings>|Settings)::from_env$": lambda e, st_, a: Enum("Result", 0, [_copy.deepcopy(S_["B"])]),
                 "from_reader": lambda e, st_, a: Enum("Result", 0, [_copy.deepcopy(S_["C"])]),
                 "File::open": ov_open,
                 "^(lift::)?(dirs::)?home_dir$": lambda e, st_, a: some(home),
@@ -2741,6 +3018,19 @@ def _rep_settings(ctx, mode, pattern):
                 js[s_.lower()] = d
             if "c" not in js:
                 js["c"] = {}
+            # the environment source reaches the real Settings::from_env as ORD_ variables
+            envd = {}
+            for f, x in js.get("b", {}).items():
+                if f in S_BOOLS:
+                    if x:
+                        envd[f.upper()] = "1"
+                elif f == "hidden":
+                    envd[f.upper()] = " ".join(x)
+                elif f == "chain":
+                    envd[f.upper()] = x.lower()
+                else:
+                    envd[f.upper()] = str(x)
+            js["env"] = envd
             home, data, mem = pth(v.get("os_home_dir", 1)) + "h", pth(v.get("os_data_dir", 2)) + "d", v.get("os_total_memory", 0)
             js.update(mode=mode, home=home, data=data, mem=mem)
             ops = _COps()
